@@ -8,6 +8,7 @@
 import RosuModel.Model.Curve
 import RosuModel.Lemmas.Outcome
 import RosuModel.Lemmas.ToyInt
+import RosuModel.Lemmas.CatmullRing
 namespace Rosu.C17
 open Rosu Rosu.Curve
 
@@ -171,6 +172,35 @@ theorem joint_dedup (pre : List (Pos P)) (last first : Pos P) (rest : List (Pos 
 theorem joint_dedup_first (out : List (Pos P)) : dedupJoint out 0 = .ok out := by
   unfold dedupJoint
   cases out <;> simp
+
+/-! ### Catmull points on the spline (exact rational arithmetic) -/
+
+/-- **`catmull_points_on_spline`**: over exact (rational) arithmetic, `catmull_subpath(v1, v2, v3, v4)` emits for
+`c = 0..49` the uniform Catmull-Rom polynomial (standard basis form `catmullRomStd`) at `t = c/50` and at
+`t = (c+1)/50` — proved by `ring` in Lemmas/CatmullRing.lean. -/
+theorem catmull_points_on_spline (v1 v2 v3 v4 : Pos Rat) :
+    catmullSubpath v1 v2 v3 v4 =
+      (List.range 50).flatMap fun (c : Nat) =>
+        [catmullRomPt v1 v2 v3 v4 ((c : Rat) / 50), catmullRomPt v1 v2 v3 v4 (((c : Rat) + 1) / 50)] :=
+  catmullSubpath_on_spline v1 v2 v3 v4
+
+/-- the spline interpolates its inner control points: `t = 0` gives `v2`, `t = 1` gives `v3`. -/
+theorem catmullRom_endpoints (v1 v2 v3 v4 : Rat) :
+    catmullRomStd v1 v2 v3 v4 0 = v2 ∧ catmullRomStd v1 v2 v3 v4 1 = v3 := by
+  unfold catmullRomStd
+  constructor <;> ring
+
+/-! ### fuel of the angle loop -/
+
+/-- **one round of `while theta_end < theta_start { theta_end += 2π }` suffices** whenever
+`theta_end + 2π` is not below `theta_start` — which holds for `atan2` results in `[-π, π]` (a law of the
+arithmetic, not of this code): then any fuel `≥ 1` gives the same, non-`fuel` outcome. -/
+theorem thetaLoop_fuel (n : Nat) (te ts : F) (h : Scalar.lt (te + (2 : F) * Trig.pi) ts = false) :
+    thetaLoop (n + 1) te ts = .ok (if Scalar.lt te ts then te + (2 : F) * Trig.pi else te) := by
+  unfold thetaLoop
+  split
+  · cases n <;> simp [thetaLoop, h]
+  · rfl
 
 /-! ### what is not proved -/
 
